@@ -157,6 +157,9 @@ fn main() {
         for e in errs {
             println!("error {:?}: {}", e.range(), e.message());
         }
+        for (which, what) in astabs::accessor_disagreements(&root) {
+            println!("accessor disagreement {which}: {what}");
+        }
         return;
     }
     if args.len() >= 3 && args[1] == "sema" {
